@@ -80,6 +80,7 @@ EXPECTED_OK += ["app.LinearLeastSquares." + m for m in [
     "JsenseRecon._get_alg", "JsenseRecon._get_alg.min_mps_ker", "JsenseRecon._get_alg.min_img_ker", "JsenseRecon._output",
     "EspiritCalib.__init__", "EspiritCalib.__init__.forward", "EspiritCalib.__init__.normalize", "EspiritCalib._output"]]
 THEOREMS = list(STATIC_THEOREMS) + [_thm(k) for k in EXPECTED_OK]
+gen_c02.MUST_BE_CLEAN = set(EXPECTED_OK)     # these keep their own `_ok` obligation whatever their name
 _META = {}
 
 
@@ -108,6 +109,10 @@ def translate(ctx):
                "in-scope functions without an IR program / obligation: %s" % missing)
     ctx.notes.append("needsRuntime (analysis cannot prove clean; runtime stream only): %s" % json.dumps(gen_c02.NEEDS_RUNTIME))
     ctx.notes.append("in place by documented contract: %s" % json.dumps(gen_c02.INPLACE_BY_CONTRACT))
+    pi = gen_c02.private_inplace(g)
+    if pi:
+        ctx.notes.append("new private helpers that write a parameter (no `_ok` obligation of their own; every call site uses "
+                         "their summary, tied to their analysis by summ_<f>_eq): %s" % json.dumps(pi))
     ctx.notes.append("apps without an IR program (runtime stream only): %s" % json.dumps(gen_c02.APP_NEEDS_RUNTIME))
     ctx.notes.append("app obligations (writesOnly prog [allowed] = true, sound by writesOnly_sound): allowed origins per class %s; "
                      "trusted contract of the algorithm constructors %s" % (json.dumps(gen_c02.APP_ALLOWED), json.dumps(gen_c02.ALG_WRITES)))
